@@ -307,6 +307,13 @@ def gen_schema(rng, sw):
                     mfields.insert(0, ["nm", idx_str])
         schema.append({"k": "struct", "name": f"M{c}", "fields": mfields, "decl": "class"})
         mid = len(schema) - 1
+        if len(mfields) > 2 and sw.get("dyn_items") and rng.random() < 0.6:
+            # an array whose items are of dynamic size AND hold a reference (item-wise copies only)
+            shape = [rng.choice([None, 2, 3])]
+            aname = f"Arr{sugar_suffix(shape)}M{c}"
+            if aname not in names:
+                names.add(aname)
+                schema.append({"k": "array", "name": aname, "item": mid, "shape": shape, "order": [0], "decl": "sugar", "order_decl": None})
         schema.append({"k": "ref", "to": mid})
         rm = len(schema) - 1
         schema.append({"k": "struct", "name": f"T{c}", "fields": [["x", sc], ["m", rm], ["l", rl]], "decl": "class"})
